@@ -12,11 +12,15 @@ def P(level, rule, quick, thorough, **kw):
     d.update(kw)
     return d
 
-PROPS = {
-    "C00": P("exploration", "smoke test of the driver", dict(builds=["DBG"], shards={"DBG": 2}), dict(builds=["DBG"]), hang="violation"),
-}
+PROPS = {}
 
 # properties deliberately not claimed (id -> reason); ids missing from PROPS are
 # listed automatically as "not built yet"
 NOT_APPLICABLE = {}
 HOOK_COMMITS = ["09c5f91"]
+
+
+# one file per property under propsd/ (each executes `PROPS["Cnn"] = P(...)`)
+import glob as _glob, os as _os
+for _f in sorted(_glob.glob(_os.path.join(_os.path.dirname(_os.path.abspath(__file__)), "propsd", "C*.py"))):
+    exec(compile(open(_f).read(), _f, "exec"))
